@@ -214,6 +214,9 @@ func C13(p *core.Program, r *core.Report) {
 							}
 							for _, ef := range a.TrackedMods(callee) {
 								li := a.Label(ef.Target)
+								if strings.Contains(li.Name, "github.com/sirupsen/logrus") {
+									continue // the logging library's own state (reached through the log sinks the helper calls)
+								}
 								problems = append(problems, fmt.Sprintf("call to %s may write %s of %s (at %s)", core.ShortKey(callee), ef.Field, li.Name, p.Pos(in.Pos())))
 								break
 							}
